@@ -77,6 +77,10 @@ def unit():
             exc = e.exc
         final = mach.read()
         own_frame(eng, 'translate_address_v')
+        if r is not None and not (isinstance(r, Obj) and isinstance(r.attrs.get('paddress'), Obj) and isinstance(r.attrs.get('memattrs'), Obj)):
+            # (e.g. a descriptor object shared between translations instead of one built for this request)
+            eng.oblige('frame.own', 'the descriptor returned is an object built by this translation (not one shared with other translations)', False, detail=type(r).__name__)
+            return
         def rd(pa):
             v = c13.hub_read(hub.init, pa, 4)
             spec_reads.append((pa, v))            # the specification's own descriptor fetches (for faithful replays)
@@ -250,6 +254,10 @@ def unit_ld():
             return
         final = mach.read()
         own_frame(eng, 'translate_address_v')
+        if r is not None and not (isinstance(r, Obj) and isinstance(r.attrs.get('paddress'), Obj) and isinstance(r.attrs.get('memattrs'), Obj)):
+            # (e.g. a descriptor object shared between translations instead of one built for this request)
+            eng.oblige('frame.own', 'the descriptor returned is an object built by this translation (not one shared with other translations)', False, detail=type(r).__name__)
+            return
         def rd8(pa):
             v = c13.hub_read(hub.init, pa, 8)
             spec_reads.append((pa, v))
